@@ -265,9 +265,170 @@ class Dep5Stream(Stream):
         return None
 
 
+class ProjectStream(Stream):
+    """Several files of one project, looked up one after the other through ONE Project object, in two different orders:
+    every answer must be what the specification says for that file alone (no look-up may depend on an earlier one),
+    with REUSE.toml files in directories whose names sort on either side of the string 'REUSE.toml'."""
+    name = "project"
+    rule = ("random projects: a directory chain of depth 2 plus a side branch, directory names from {a, src, Docs, 3rdparty, .config, Zed, "
+            "'b c'} (upper case, digits and dots sort before 'REUSE.toml'), a REUSE.toml with one or two catch-all tables (last wins) in "
+            "each directory with probability 0.7, 1-2 files per directory with own information {none, copyright, licence, both}; every "
+            "file is looked up through one Project object in two different orders; oracle: the specification for each file alone; "
+            "non-trivial = distinct (project, file) with a non-empty answer")
+    DNAMES = ["a", "src", "Docs", "3rdparty", ".config", "Zed", "b c"]
+
+    def cases(self, tier, rng):
+        for _ in range(1500 if tier == "thorough" else 150):
+            yield {"seed": rng.randrange(1 << 30)}
+
+    def _gen(self, case):
+        import random
+        rng = random.Random(case["seed"])
+        d1 = rng.choice(self.DNAMES)
+        d2 = rng.choice(self.DNAMES)
+        side = rng.choice([n for n in self.DNAMES if n != d1])
+        dirs = ["", d1, d1 + "/" + d2, side]
+        tomls = {}
+        tag = 0
+        for d in dirs:
+            if rng.random() < 0.7:
+                tabs = []
+                for _ in range(rng.choice([1, 1, 1, 2])):
+                    tag += 1
+                    tabs.append((rng.choice("ccccaao"), rng.choice("nCLB"), tag))
+                tomls[d] = tabs
+        files = []  # (path, own code)
+        for d in dirs:
+            for k in range(rng.randint(1, 2)):
+                files.append(((d + "/" if d else "") + "f%d.txt" % k, rng.choice("nCLB")))
+        order1 = list(range(len(files)))
+        rng.shuffle(order1)
+        order2 = list(range(len(files)))
+        rng.shuffle(order2)
+        return dirs, tomls, files, [order1, order2]
+
+    def _tree(self, case):
+        dirs, tomls, files, orders = self._gen(case)
+        out = {}
+        for d, tabs in tomls.items():
+            parts = ["version = 1\n"]
+            for p, i, tag in tabs:
+                c, l = info_for(i, tag)
+                parts.append("\n[[annotations]]\npath = \"**\"\nprecedence = \"%s\"\n" % PRECS[p])
+                if c:
+                    parts.append("SPDX-FileCopyrightText = [%s]\n" % ", ".join('"%s"' % x for x in c))
+                if l:
+                    parts.append("SPDX-License-Identifier = \"%s\"\n" % l[0])
+            out[(d + "/" if d else "") + "REUSE.toml"] = "".join(parts)
+        body = {"n": "just text\n", "C": "# SPDX-FileCopyrightText: 2019 Own\ntext\n", "L": "# SPDX-License-Identifier: Unlicense\ntext\n",
+                "B": "# SPDX-FileCopyrightText: 2019 Own\n# SPDX-License-Identifier: Unlicense\ntext\n"}
+        for path, own in files:
+            out[path] = body[own]
+        return out
+
+    def _truth(self, case, path):
+        """(ancestor directories outermost first, levels [(prec, cpr, lic)|None], own (cpr, lic))"""
+        dirs, tomls, files, orders = self._gen(case)
+        d = os.path.dirname(path)
+        anc = [""]
+        parts = d.split("/") if d else []
+        for k in range(1, len(parts) + 1):
+            anc.append("/".join(parts[:k]))
+        levels = []
+        for a in anc:
+            tabs = tomls.get(a)
+            if not tabs:
+                levels.append(None)
+            else:
+                p, i, tag = tabs[-1]
+                c, l = info_for(i, tag)
+                levels.append((p, c, l))
+        own = dict(files)[path]
+        own_truth = {"n": ([], []), "C": (["SPDX-FileCopyrightText: 2019 Own"], []), "L": ([], ["Unlicense"]),
+                     "B": (["SPDX-FileCopyrightText: 2019 Own"], ["Unlicense"])}[own]
+        return anc, levels, own_truth
+
+    def impl(self, case):
+        from reuse.project import Project
+        import logging
+        dirs, tomls, files, orders = self._gen(case)
+        answers = []
+        with cli.scratch("rv-c04p-") as root:
+            cli.write_tree(root, self._tree(case))
+            logging.disable(logging.CRITICAL)
+            try:
+                with cli.chdir(root):
+                    project = Project.from_directory(root)
+                    for rnd, order in enumerate(orders):
+                        for k in order:
+                            path = files[k][0]
+                            anc, _, _ = self._truth(case, path)
+                            infos = project.reuse_info_of(os.path.join(root, path))
+                            items = set()
+                            for info in infos:
+                                st = info.source_type.value if info.source_type else None
+                                sp = info.source_path
+                                if st == "reuse-toml" and sp and sp.endswith("REUSE.toml") and os.path.dirname(sp) in anc:
+                                    label = "toml:%d" % anc.index(os.path.dirname(sp))
+                                elif (sp, st) == (path, "file-header"):
+                                    label = "own"
+                                else:
+                                    label = "bad-src:%s:%s" % (sp, st)
+                                if info.path != path:
+                                    label = "bad-path:%s" % info.path
+                                for c in info.copyright_lines:
+                                    items.add(("C", label, c))
+                                for e in info.spdx_expressions:
+                                    items.add(("L", label, str(e)))
+                            answers.append((rnd, k, canon(items)))
+            finally:
+                logging.disable(logging.NOTSET)
+        answers.sort()
+        return " || ".join("%d:%d=%s" % a for a in answers)
+
+    def model_lines(self, case):
+        dirs, tomls, files, orders = self._gen(case)
+        lines = []
+        for path, own in files:
+            anc, levels, own_truth = self._truth(case, path)
+            fields = ["precedence", enc_list(own_truth[0]), enc_list(own_truth[1])]
+            for lv in levels:
+                fields += ["-", "~", "~"] if lv is None else [lv[0], enc_list(lv[1]), enc_list(lv[2])]
+            lines.append("\t".join(fields))
+        return lines
+
+    def model_out(self, case, outs):
+        per = [" ".join(sorted(x for x in o.split(" ") if x)) for o in outs]
+        return " || ".join("%d:%d=%s" % (rnd, k, per[k]) for rnd in (0, 1) for k in range(len(per)))
+
+    def oracle(self, case, impl_out):
+        if impl_out.startswith("EXC"):
+            return "lookup-crash: " + impl_out
+        dirs, tomls, files, orders = self._gen(case)
+        for part in impl_out.split(" || "):
+            head, got = part.split("=", 1)
+            rnd, k = map(int, head.split(":"))
+            path = files[k][0]
+            anc, levels, own_truth = self._truth(case, path)
+            want = canon(spec_items(levels, own_truth))
+            if got != want:
+                def pretty(s):
+                    return sorted((x.split("|")[0], x.split("|")[1], dec(x.split("|")[2])) for x in s.split(" ") if x.count("|") == 2)
+                return ("attribution-differs-in-project: %s (look-up round %d, order %s): tool attributes %s, specification says %s"
+                        % (path, rnd, [files[i][0] for i in orders[rnd]], pretty(got), pretty(want)))
+        return None
+
+    def nontrivial(self, case, impl_out):
+        return (case["seed"], impl_out) if "|" in impl_out else None
+
+    def show(self, case):
+        dirs, tomls, files, orders = self._gen(case)
+        return {"files": self._tree(case), "lookup_orders": [[files[i][0] for i in o] for o in orders]}
+
+
 PROPERTY = Property(
     pid="C04",
-    streams=[TreeStream(), Dep5Stream()],
+    streams=[TreeStream(), Dep5Stream(), ProjectStream()],
     assumptions=[
         "glob matching of the [[annotations]] tables is a parameter of the model (decided by C05); the generator knows which tables match",
         "what reading the file's own source yields (tag extraction, binary detection, parse-error drop) is the generator's ground truth here and the subject of C02",
